@@ -199,20 +199,26 @@ def run(drv, case):
             # every clause instance fetched *during* the search must get ids that occur nowhere in the live solution nodes
             clashes = []
             def on_get_rule(mm, func, args, ret):
+                # every renamed clause instance, whichever function hands it out
+                if not (isinstance(ret, Agg) and ret.ty == 'Rule'): return
                 new = set()
                 ids_in_heap(ret, new, set())
                 if not new: return
                 live = ids_in_heap(node.h, set(), set())
                 both = sorted(x for x in (new & live) if x is not None)
-                if both: clashes.append(both)
-            m.post_hooks['get_rule'] = on_get_rule
+                if both: clashes.append('id(s) %s are in use in the live solution nodes' % both)
+                byname, byid = {}, {}
+                for vid, nm in names_in_heap(ret):
+                    if byname.setdefault(nm, vid) != vid: clashes.append('%s has two ids in one clause instance' % nm)
+                    if byid.setdefault(vid, nm) != nm: clashes.append('%s and %s share id %s in one clause instance' % (byid[vid], nm, vid))
+            m.post_hooks['recreate_variables'] = on_get_rule
             for i in range(case['k']):
                 r = drv.next(node)
                 if r.h is None: break
                 last = r
-            m.post_hooks.pop('get_rule', None)
+            m.post_hooks.pop('recreate_variables', None)
             if clashes:
-                raise Violation('fresh-id-in-use', '%s: a clause fetched during the search received id(s) %s that were in use in the live solution nodes' % (desc, clashes[0]))
+                raise Violation('fresh-id-in-use', '%s: a clause instance renamed during the search: %s' % (desc, clashes[0]))
             used = ids_in_heap(node.h, set(), set())
             # inside the running search every id belongs to one variable: two names under one id = a fresh variable that was in use
             names = {}
